@@ -509,6 +509,10 @@ pub fn plan(property: &str, tier: Tier, seed: u64) -> Option<Plan> {
             crate::engines::laws::units("C14", tier.pick(300, 3000), seed),
             "IntoOwned laws on every catalogued composition: a case = a source region holding 1..5 generated values, a chosen item x, an arbitrary generated prior value t for the clone_onto target (re-using one of the items a quarter of the time), and a destination region with 0..3 prior items. Checked: into_owned(x) equals the pushed value; borrow_as(&into_owned(x)) passes the deep read oracle (len, get, iteration, into_owned); reborrow(x) passes it; clone_onto from the region-backed and from the owned-borrowed item leaves t equal to the pushed value whatever t held; pushing x and borrow_as(&owned) into the destination region yields an item that passes the deep oracle, leaves the destination's earlier items and the source unchanged. Non-trivial: the prior target value differs from the item's value (longer/shorter/other variant).".to_string(),
         ),
+        "C15" => (
+            crate::engines::order::units("C15", !q, seed),
+            "Equality and ordering of read items. A case = three values (vectors over a small ordered domain: elements from a 2-4 value alphabet, lengths 0..12, later values are copies / strict prefixes / one-element extensions of earlier ones 30% of the time), each stored in one of two slice regions of the same type with different prior contents or taken as borrow_as(&owned); for Huffman items: a raw container, two encoded containers trained on opposite frequency profiles (so equal content has different bit lengths) or borrowed. Oracle: == equals equality of the owned vectors; cmp equals their lexicographic cmp; partial_cmp == Some(cmp); eq <=> cmp == Equal; antisymmetry on every ordered pair; transitivity over all permutations of the triple; sorting three items by Ord gives the owned order. Subjects: slices over Mirror<u8>, Str, Owned<u8>, nested slices, consecutive-pair strings with IndexOptimized / IndexList / Vec index containers (f64 slices: PartialEq/PartialOrd by IEEE on finite values); Huffman<u8>. Bounded-exhaustive: all triples of vectors of length <= 3 over {0,1} x all 27 representation assignments (3375x27), strings over two values (length <= 2, thorough 3), Huffman over {0,1,2} (length <= 2, thorough 3) x 64 assignments. Non-trivial: a pair that is a strict prefix, or equal content in different representations/regions.".to_string(),
+        ),
         "C17" => (
             crate::engines::alloc::units("C17", !q, seed),
             "Allocation discipline, observed with heap_size capacities and a counting #[global_allocator] in the harness binary (thread-local counters, switched on only around the measured pushes). (a) every vector-backed structural composition (owned slices, strings, slices of regions with vector index lists, options, results, tuples, vectors as regions; plain-data payload) and FlatStack over them with a vector index container: a case = optional populated prefix, a generated batch (empty items, many small, few large, repeated values, skewed variants, nested slices), one of the routes reserve_items(batch) / reserve_regions(1..3 sources holding the batch) / merge_regions(sources) / FlatStack reserve+reserve_items / merge_capacity, then exactly the announced values are pushed (as borrowed read items built beforehand, so the measured section creates no temporaries): every reported capacity must stay constant and the allocator must not be called. (b) every non-coded plain-data composition: n = 2^6, 2^8, .. 2^14 (thorough 2^16) items from an 8-value pool pushed into a default region: allocator calls <= storages*(log2 n + 10) + 8 and growth per quadrupling <= 2*storages + 6. Non-trivial: batch with >= 8 items, >= 2 distinct payload sizes and >= 64 payload bytes; each (composition, n) of the logarithmic series.".to_string(),
